@@ -157,8 +157,15 @@ def run(chk):
             if cmd == 'detect':
                 outpath = os.path.join(d, 'detected.' + rnd.choice(['csv', 'parquet']))
                 argv.append(outpath)
+        # flags before the input (the documented order) in half of the invocations, after the positionals otherwise;
+        # --output-fields, which takes a list, always comes last
+        front = []
         for fl in [f for f in flags if f != 'output-fields']:
-            argv += FLAGTEXT[fl]
+            if tid % 2 == 0:
+                front += FLAGTEXT[fl]
+            else:
+                argv += FLAGTEXT[fl]
+        argv = [argv[0]] + front + argv[1:]
         if fault == 'unknown-flag':
             argv.append('--no-such-flag')
         if 'output-fields' in flags:
